@@ -53,7 +53,8 @@ type Case struct {
 	Closed       bool
 	written      map[int]bool // requests whose reply the send goroutine has started to write
 	enq, atSend  map[int]bool
-	noTrace      bool // stop logging internal trace lines (after out-of-model probe traffic)
+	aborted      map[int]bool // requests the implementation cancelled through FlushOp
+	noTrace      bool         // stop logging internal trace lines (after out-of-model probe traffic)
 }
 
 func toInt(v any) int {
@@ -179,6 +180,8 @@ func (k *Case) Do(step []any) error {
 		if err == nil {
 			k.late[a(1)] = true
 		}
+	case "ImplAbort":
+		err = c.GrantCmd("impl", a(1), 0, Cmd{Out: "return"})
 	case "ImplLate":
 		out := step[2].(string)
 		r := a(1)
@@ -299,6 +302,9 @@ func (k *Case) flush3(r int, cancel bool) error {
 			if err := c.GrantCmd("flushop", p.Req, 0, Cmd{Out: out}); err != nil {
 				return err
 			}
+			if cancel {
+				k.aborted[p.Req] = true
+			}
 			k.logStep("WFlush3", r, cancel)
 			return nil
 		}
@@ -340,6 +346,10 @@ func (k *Case) enabledSteps() [][]any {
 				out = append(out, []any{"WFlush3Op", p.Req, true})
 			}
 		case "impl":
+			if k.aborted[p.Req] {
+				out = append(out, []any{"ImplAbort", p.Req})
+				continue
+			}
 			out = append(out, []any{"ImplRespond", p.Req, "ok"}, []any{"ImplRespond", p.Req, "err"})
 			if k.kinds[p.Req] == "Walk" {
 				out = append(out, []any{"ImplRespond", p.Req, "partial"})
@@ -446,9 +456,12 @@ func (k *Case) targetInImpl(flushReq int) bool {
 
 // setup: optional version handshake and attaches for the initially valid fids, free-running.
 func (k *Case) setup() {
-	k.setupConn(k.ch, k.Cfg.InitFids)
 	if k.by != nil {
 		k.setupConn(k.by, []int{1})
+	}
+	k.setupConn(k.ch, k.Cfg.InitFids)
+	for _, f := range k.Cfg.InitFids {
+		k.C.Emit(Event{"ev": "initfid", "fid": f}) // already shown to the implementation and valid
 	}
 }
 
@@ -579,7 +592,7 @@ func RunCase(t *testing.T, lg *go9p.Logger, cfg Cfg, seed int64, fn func(k *Case
 		c.Start(srv, ops)
 		defer c.Stop()
 		k := &Case{C: c, Cfg: cfg, rng: rand.New(rand.NewSource(seed)), late: map[int]bool{}, answered: map[int]bool{},
-			extraDone: map[int]bool{}, kinds: map[int]string{}, written: map[int]bool{}, enq: map[int]bool{}, atSend: map[int]bool{}}
+			extraDone: map[int]bool{}, kinds: map[int]string{}, written: map[int]bool{}, enq: map[int]bool{}, atSend: map[int]bool{}, aborted: map[int]bool{}}
 		kk = k
 		k.ch = c.NewConn()
 		k.ch.Dotu = cfg.Dotu
